@@ -377,7 +377,17 @@ async def run_history(loop, case, out, stats, trace):
                         for m in stuck:
                             m.place = "stuck"
                         if stuck:
-                            out.append(V("stuck_held", kind, "no-live-holder", f"{[m.id for m in stuck]} marked in-flight for {timeout}s, not in the local queue of the only consumer that could hold them"))
+                            # the two listed ways into this state need a finish() (prefetcher cancelled mid-fetch) or a cancelled
+                            # consume() while the message was there to be had; a history with neither since the message was last
+                            # touched is something else
+                            def since_last_touch(m_):
+                                last = max((i_ for i_, tr_ in enumerate(trace[:-1]) if m_.id in tr_[1:]), default=-1)
+                                return [tr_[0] for tr_ in trace[last + 1:-1]]
+
+                            unexplained = [m_ for m_ in stuck if not ({"finish", "refinish", "restart", "consume-timeout"} & set(since_last_touch(m_)))]
+                            cx_ = "no-live-holder/consumer-alive-and-undisturbed-since" if unexplained else "no-live-holder"
+                            out.append(V("stuck_held", kind, cx_, f"{[m.id for m in (unexplained or stuck)]} marked in-flight for {timeout}s, not in the local queue of the only consumer that could hold them"
+                                         + (f"; since the message was last touched nothing was finished and no consume() was cancelled: {since_last_touch(unexplained[0])}" if unexplained else "")))
                         must = [m for m in must if m not in stuck]
                     if must:
                         stats["consume_must_timeouts"] += 1
